@@ -13,6 +13,10 @@ CHECKS = {
    text="TLC exhaustively checks StackCore.tla (all stack shapes up to depth 3 with groups of up to 2, quick; depth 4 / groups of 3, thorough; every emitter, consumer, direction, detached/normal, stack-level entry, data behaviour) against the order / exactly-once / reach / fan-out invariants, and StackBuild.tla (builder programs, both tuple order conventions, implicit/explicit groups, the 16+64 helper flag combinations). Every transition of both graphs is replayed on real YowStack objects made of synthesised recording layers in four construction variants; logs are compared after every step including each loop step.",
    note="Trusts TLC and the replay driver; members of a group behind a consuming member and siblings of an emitting member are compared as don't-care (the statement does not decide them); depth 5-6 shapes are not enumerated (the walk is uniform in depth).",
    technique="TLA+ spec + TLC exhaustive model checking; replay of every spec transition into the real stack (one implementation test per transition)"),
+ "C13": dict(level="model_checking", design="4/C13",
+   text="TLC exhaustively checks KeyStore.tla (five tables, every API operation as its SQL statement/commit sequence, crash between any two statements, reopen) for all histories of up to 3 (thorough 4) operations over 2 keys x 2 values against Durable, AllOrNothing and SentMonotone; the as-read statement order is kept as a switch and must violate AllOrNothing (self-test). Every transition of the graph is replayed on the real LiteAxolotlStore over a file, and at EVERY statement and commit boundary of every operation the database and its journal are copied, reopened by a fresh store and compared with the specification's committed state.",
+   note="Trusts TLC, the sqlite3 proxy (statement numbering) and file-copy crash model (process death, not power loss); python-axolotl record classes are used to build distinguishable values.",
+   technique="TLA+ spec + TLC exhaustive model checking; behaviour replay with crash injection at every statement boundary (copy db+journal, reopen)"),
 }
 NA_REASON = "check not built yet in this session (planned: see DESIGN.md section 4)"
 
